@@ -203,6 +203,7 @@ func TestWorker(t *testing.T) {
 	agg := map[string]int{}
 	hashes := map[string]bool{}
 	fams := map[string]int{}
+	cover := map[string]bool{}
 	runs, steps, harness, leaks := 0, 0, 0, 0
 	var simMs int64
 	seenRule := map[string]bool{}
@@ -248,6 +249,9 @@ func TestWorker(t *testing.T) {
 		if r.Nontrivial {
 			hashes[r.Hash] = true
 		}
+		for _, c := range r.Cover {
+			cover[c] = true
+		}
 		if len(samples) < 2 && r.Sample != nil {
 			samples = append(samples, map[string]any{"seed": seed, "steps": r.Steps, "case": r.Sample})
 		}
@@ -289,7 +293,7 @@ func TestWorker(t *testing.T) {
 	sort.Strings(hs)
 	emit(map[string]any{"type": "summary", "prop": prop, "tier": tier, "runs": runs, "steps": steps, "sim_ms": simMs,
 		"stats": agg, "hashes": hs, "families": fams, "harness_errors": harness, "leaks": leaks,
-		"wall_s": time.Since(start).Seconds(), "samples": samples, "seed0": seed0, "stride": stride})
+		"wall_s": time.Since(start).Seconds(), "samples": samples, "cover": sortedKeys(cover), "seed0": seed0, "stride": stride})
 }
 
 func sanitize(s string) string {
